@@ -2,6 +2,7 @@ import PMV.Driver.Util
 import PMV.AstSexp
 import PMV.Model.Exports
 import PMV.Model.InPlace
+import PMV.Model.HoistCollect
 namespace PMV.Driver.Exports
 open PMV PMV.Driver
 
@@ -33,3 +34,25 @@ def fnCmd (args : List Sexp) : Option String := do
   | _ => none
 
 end PMV.Driver.InPlace
+
+namespace PMV.Driver.HoistCollect
+open PMV PMV.Driver
+
+def encConst : Const → String
+  | .none => "N"
+  | .true_ => "T"
+  | .false_ => "F"
+  | .str _ cps => "S" ++ ".".intercalate (cps.map toString)
+  | .bytes _ bs => "B" ++ ".".intercalate (bs.map toString)
+  | _ => "?"
+
+/-- `hoist.collect <module>` → the literal occurrences `HoistLiterals` collects, in traversal order:
+    `N` / `T` / `F`, `S<code points>` for a string, `B<bytes>` for bytes (`.`-separated) -/
+def collectCmd (args : List Sexp) : Option String := do
+  match args with
+  | [m] =>
+    let m ← AstSexp.module? m
+    pure (" ".intercalate ((PMV.HoistCollect.collect m).map encConst))
+  | _ => none
+
+end PMV.Driver.HoistCollect
